@@ -196,6 +196,42 @@ class CallMixin:
             if k.head in ("set",):
                 return self.enum_of_set(st, v)
             raise OutOfSubset("list() of kind %r" % (v.k,))
+        if name == "sorted" and len(node.args) == 1 and not node.keywords:
+            # sorted(<set | dict | dict keys> of str): a duplicate-free enumeration of the members (as for iteration) that
+            # is in non-decreasing string order. sorted(<list of str>): a rearrangement (explicit bijection) in order.
+            v = self.ev(node.args[0], st, cx)
+            k = unopt(v.k)
+            i, j = bvar("si"), bvar("sj")
+            if k.head in ("set", "dict", "keys"):
+                ek = k[1]
+                if ek.head != "str":
+                    raise OutOfSubset("sorted() of elements of kind %r" % (ek,))
+                base = SV(v.t, K("set", k[1]) if k.head == "set" else K("dict", k[1], k[2]))
+                res = self.enum_of_set(st, base)          # members, each once, position function both ways
+                er = ref(res.t)
+                n, new = ops.l_len(st, er), ops.l_el(st, er)
+            elif k.head == "list":
+                ek = k[1] if len(k) > 1 else ANY
+                if ek.head != "str":
+                    raise OutOfSubset("sorted() of elements of kind %r" % (ek,))
+                sr = self.R(st, v)
+                n, old = ops.l_len(sr, ref(v.t)), ops.l_el(sr, ref(v.t))
+                new = fresh("sorted", old.sort())
+                perm = z3.Function(str(fresh("perm", IntS)), IntS, IntS)
+                inr0 = lambda x: z3.And(0 <= x, x < n)      # noqa: E731
+                st.assume(z3.ForAll([i], z3.Implies(inr0(i), z3.And(inr0(perm(i)), z3.Select(new, i) == z3.Select(old, perm(i)))),
+                                    patterns=[z3.Select(new, i)]), glob=True)
+                st.assume(z3.ForAll([i, j], z3.Implies(z3.And(inr0(i), inr0(j), i != j), perm(i) != perm(j)),
+                                    patterns=[z3.MultiPattern(perm(i), perm(j))]), glob=True)
+                st.assume(z3.ForAll([i], z3.Implies(z3.Not(inr0(i)), z3.Select(new, i) == VNone), patterns=[z3.Select(new, i)]), glob=True)
+                res = SV(VRef(ops.new_list(st, n, new)), K("list", ek))
+                assume_typed(st, res.t, res.k)
+            else:
+                raise OutOfSubset("sorted() of kind %r" % (v.k,))
+            inr = lambda x: z3.And(0 <= x, x < n)      # noqa: E731
+            si_, sj_ = sval(z3.Select(new, i)), sval(z3.Select(new, j))
+            st.assume(z3.ForAll([i, j], z3.Implies(z3.And(inr(i), inr(j), i < j), z3.Or(si_ == sj_, si_ < sj_))), glob=True)
+            return SV(res.t, K("list", ek))
         if name == "set":
             if not node.args:
                 return SV(VRef(ops.new_set(st, ops.EMPTY_MEM)), K("set", ANY))
